@@ -786,14 +786,14 @@ class FuncLower(ExprMixin):
         if cond:
             fe, cs_ = self.lower_cond(cond)
         if not cond or not (fe.pre or fe.post):
-            cv = cs_ if cond else ''
+            cv = cs_ if cond else '1'     # 'for(;;)' would make CBMC drop the loop contract silently
             self.emit('for (; %s; %s)' % (cv, incs))
             self.loop_contract()
             self.scopes.append(Scope('loop'))
             self.stmt_as_block(body)
             self.scopes.pop()
         else:
-            self.emit('for (; ; %s)' % incs)
+            self.emit('for (; 1; %s)' % incs)
             self.loop_contract()
             self.emit('{'); self.ind += 1
             self.scopes.append(Scope('loop'))
@@ -821,7 +821,7 @@ class FuncLower(ExprMixin):
             self.emit('for (; %s; %s)' % (ccs, ie.s))
             self.loop_contract()
         else:
-            self.emit('for (; ; %s)' % ie.s)
+            self.emit('for (; 1; %s)' % ie.s)
             self.loop_contract()
         self.emit('{'); self.ind += 1
         self.scopes.append(Scope('loop'))
